@@ -12,6 +12,7 @@ import JinjaV.Wire.Path
 import JinjaV.Wire.Native
 import JinjaV.Wire.FiltColl
 import JinjaV.Wire.Lex
+import JinjaV.Wire.Trim
 
 open JinjaV
 
@@ -28,6 +29,7 @@ def dispatch (line : String) : Sx :=
     | "sbx" => Wire.Sandbox.handle args
     | "undef" => Wire.Undefined.handle args
     | "lex" => Wire.Lex.handle args
+    | "trim" => Wire.Trim.handle args
     | "lex-plain" => Wire.Lex.handlePlain args
     | "filt" => Wire.FiltColl.handle args
     | "native" => Wire.Native.handle args
